@@ -133,7 +133,7 @@ theorem keyStems_prefix_iff (sa : Bool) (u v : Parts) (hu : noUserinfo u.netloc 
       · simp
       · have : splitChar '.' (specHost u.netloc) ≠ [] := splitBy_ne_nil _
         simpa [labelStems] using this
-    unfold hostStems
+    rw [hostStems_eq]
     split
     · cases splitSuffixParsed sp u.netloc with
       | none => exact h1
